@@ -7,6 +7,7 @@ import (
 	"encoding/json"
 	"fmt"
 	xtxtar "golang.org/x/tools/txtar"
+	"os"
 	"strings"
 	"sync/atomic"
 	"unicode/utf8"
@@ -25,6 +26,8 @@ type kase struct {
 	Seq  bool   `json:"sequence,omitempty"`
 	// Key: the violation key under which a long input was reported (by shape)
 	Key string `json:"key,omitempty"`
+	// Tool: a tree archived with the built txtar-c -quote
+	Tool *toolCase `json:"tool,omitempty"`
 }
 
 // checkSequence: results obtained for d must be unchanged after the same
@@ -224,6 +227,12 @@ func main() {
 		if c.Seq {
 			return checkSequence(c.Data, c.Next)
 		}
+		if c.Tool != nil {
+			if v := checkTool(os.Getenv("VERIF_SCRATCH"), *c.Tool); v != "" {
+				return []kit.V{{Key: toolKey(v, *c.Tool), What: v, Case: c}}
+			}
+			return nil
+		}
 		r.Watch(127, c.Data)
 		defer r.WatchDone(127)
 		vs := checkData(c.Data)
@@ -336,6 +345,7 @@ func main() {
 			}
 		}
 	}
+	r.Set("trees_archived_with_txtar_c_quote", toolPass(r))
 	r.Set("long_line_bodies", longs)
 	r.Set("evaluations", evals+longs)
 	r.Set("distinct_nontrivial", nontrivial+longs)
